@@ -187,3 +187,51 @@ func VerifC10_Ops1()       { c10(1, 0, false) }
 func VerifC10_Ops2()       { c10(2, 0, false) }
 func VerifC10_Ops1Cancel() { c10(1, 0, true) }
 func VerifC10_Ops1Break()  { c10(1, 1, false) }
+
+// VerifC10_InitDies: the container init is killed (OOM killer, operator) at an arbitrary
+// transport event while a Ping / Open / Execve is in flight or before it: its end of the
+// socket closes, the host reads end-of-file.  The call must come back (a hang is reported as
+// a deadlock) - with an error unless its reply had already arrived - and every later call
+// fails at once.
+func VerifC10_InitDies() {
+	w := newWorld()
+	w.onlyRun = true
+	died := false
+	w.cancelFn = func() {
+		died = true
+		sym.Reach("init-killed")
+		w.initExited = true
+		w.l.closed[1] = true
+		if pr := w.prog; pr != nil && pr.started && !pr.ended {
+			pr.ended, pr.killed, pr.status = true, true, 9
+		}
+		sym.KillPid(pidInit)
+		if sym.Pid() == pidInit {
+			sym.ExitThread(137)
+		}
+	}
+	c := w.host
+	failed := false
+	switch sym.Choose("op", 3) {
+	case 0:
+		failed = c.Ping() != nil
+	case 1:
+		_, err := c.Open([]OpenCmd{{Path: "/w/a"}})
+		failed = err != nil
+	case 2:
+		w.mayRunForever = false
+		res := c.Execve(kern.Background(), ExecveParam{Args: []string{"/bin/prog"}, Env: []string{"A=1"}})
+		failed = res.Status == runner.StatusRunnerError
+	}
+	sym.Reach("call-returned")
+	w.cancelFn = nil
+	if !died {
+		return
+	}
+	if failed {
+		sym.Reach("call-failed")
+	}
+	sym.WaitOthers()
+	err := c.Ping()
+	sym.Assert(err != nil, "a call on an environment whose init is dead must fail")
+}
